@@ -6,8 +6,15 @@
 import ScionTime.Model.FreqDrift
 import ScionTime.Proofs.F64Apply
 import ScionTime.Proofs.F64Duration
+import ScionTime.Gen.Unixutil
+import ScionTime.Gen.Timemath
 namespace ScionTime.C18
 open ScionTime.F64 ScionTime.FreqDrift
+
+/-- Pin: the constant expression `65536.0 * 1e6` in both functions of freq.go (folded by the
+    extractor exactly as the Go compiler does) is the model's `scale`. -/
+theorem C18_pin_scale :
+    Gen.Unixutil.scaledPPMFromFreqScale = scale ∧ Gen.Unixutil.freqFromScaledPPMScale = scale := by decide
 
 theorem C18_scale_exact : ofInt scale = .fin 65536000000 := by
   have := ofInt_exact scale (by decide) (by decide) (by decide)
